@@ -23,6 +23,7 @@ MUTANTS = [
     ("C01", "sort-key-start-only", "typhon/files/fileset.py", 'file_iterator, key=lambda x: (x.times[0], x.times[1])', 'file_iterator, key=lambda x: (x.times[0], )'),
     ("C01", "bundle-off-by-one", "typhon/files/fileset.py", 'files[i:i + bundle_size]\n', 'files[i:i + bundle_size - 1]\n'),
     ("C01", "exclude-names-ignored", "typhon/files/fileset.py", '        if file.path in self._exclude_files:\n            return True', '        if file.path in self._exclude_files:\n            return False'),
+    ("C01", "nontemporal-level-checked", "typhon/files/fileset.py", "                if not is_temporal\n                or self._check_placeholders(attr, start_check, end_check)", "                if self._check_placeholders(attr, start_check, end_check)"),
     ("C01", "year-fallback-strict", "typhon/files/fileset.py", 'return year >= start.year and attr_end["year"] <= end.year', 'return year > start.year and attr_end["year"] <= end.year'),
     ("C03", "match-one-sided", "typhon/files/fileset.py", "            times2[:, 1] += int(max_interval.total_seconds())\n", ""),
     ("C03", "match-unsorted-partners", "typhon/files/fileset.py", "matches = [files2[oi] for oi in sorted(overlapping_files)]", "matches = [files2[oi] for oi in sorted(overlapping_files, reverse=True)]"),
